@@ -2,22 +2,25 @@ import PsyVerif.Lemmas.Inline
 /-! # C07 — Inlining a call preserves the caller's behaviour
 
 Model: `PsyVerif/Model/Inline.lean` (`validate`, `apply`, `renOf` mirror `InlineTrans.validate`,
-`_replace_formal_arg` / `_replace_formal_struc_arg` / `_create_inlined_idx` and the renaming done by
-`SymbolTable.merge`; `execCall` is an independent by-reference CALL semantics).
-Helper lemmas (the substitution lemma `execE_subst`): `PsyVerif/Lemmas/Inline.lean`.
+`_replace_formal_arg` / `_replace_formal_struc_arg` / `_create_inlined_idx` and the renaming of merged
+locals; `execCall` is an independent by-reference CALL semantics).
+Helper lemmas (substitution lemma `execE_subst`, frame simulation `execE_rel`, `wvars_substS`):
+`PsyVerif/Lemmas/Inline.lean`.
 
-The pinned code is **wrong** in four ways, each with a kernel-checked witness below and each
-reproduced with gfortran by the harness:
+Four defects were found on the pinned tree (each reproduced with gfortran by the harness):
 
 1. `call s(a(i), i)` where `s` modifies `i`: the element is re-selected after the change;
 2. `call s(i+1, i, n)`: an expression actual is re-evaluated after the callee changed `i`;
-3. a formal argument used as DO variable is not replaced (`Loop.variable` is a Symbol);
-4. a callee local with the name of a variable of an *enclosing* scope (module variable) used
-   by the caller is merged without renaming and captures the caller's references.
+3. a formal argument used as DO variable was not replaced (`Loop.variable` is a Symbol)
+   — **fixed** by `fixes/C07-loopvar-formal.patch` (replace it when the actual is a plain variable,
+   refuse otherwise); the model follows the fixed code;
+4. a callee local with the name of a variable of an *enclosing* scope (module variable) was merged
+   without renaming and captured the caller's references
+   — **fixed** by `fixes/C07-outer-capture.patch`; the model follows the fixed code, and
+   `C07_inline_no_capture` holds without any side condition.
 
-`C07_statement` is the full property; the `…_partial` theorems prove it for every call, every
-callee body, every store, under the decidable side conditions `WellFormed` (excludes 3),
-`IndexStable` (excludes 1, 2) and `NoOuterClash` (excludes 4). -/
+1 and 2 are not repaired by a small patch: `C07_statement` (the full property) is refuted by two
+kernel-checked witnesses and proved under the decidable side condition `IndexStable`. -/
 namespace C07
 open MiniF
 
@@ -42,24 +45,6 @@ theorem inline_ok {c : Call} {s : Stmt} (h : inline c = .ok s) : validate c = .o
     cases h
     exact ⟨hv, rfl⟩
 
-theorem okS_imp_okSL (ρ : Nat → Role) (s : Stmt) (h : okS ρ s = true) : okSL ρ s = true := by
-  induction s with
-  | skip => rfl
-  | seq a b iha ihb =>
-    simp only [okS, okSL, Bool.and_eq_true] at h ⊢
-    exact ⟨iha h.1, ihb h.2⟩
-  | assign x e => exact h
-  | store1 a i e => exact h
-  | store2 a i j e => exact h
-  | ite c t f iht ihf =>
-    simp only [okS, okSL, Bool.and_eq_true] at h ⊢
-    exact ⟨⟨h.1.1, iht h.1.2⟩, ihf h.2⟩
-  | loop v lo hi st b ih =>
-    simp only [okS, okSL, Bool.and_eq_true] at h ⊢
-    refine ⟨⟨⟨⟨?_, h.1.1.1.2⟩, h.1.1.2⟩, h.1.2⟩, ih h.2⟩
-    have := h.1.1.1.1
-    cases hr : ρ v <;> simp_all [loopRole, loopRoleLegal]
-
 /-- with no callee locals the frame is irrelevant -/
 theorem execCall_no_locals {c : Call} (h : c.locals = []) (fr : Nat → Nat) (σ : Store) :
     execCall fr c σ = execCall id c σ := by
@@ -75,55 +60,52 @@ def FreshFrame (c : Call) (fr : Nat → Nat) : Prop :=
 
 /-! ## The property -/
 
-/-- **Full statement** (false of the pinned code): whenever `InlineTrans` accepts a legal call,
-the statements that replace the call leave every caller-visible location exactly as the call
-would have, for every store — the callee's locals being placed in some storage the caller
-cannot see. -/
+/-- **Full statement** (false of the code, see the two witnesses): whenever `InlineTrans` accepts a
+legal call, the statements that replace the call leave every caller-visible location exactly as
+the call would have, for every store — the callee's locals being placed in some storage the
+caller cannot see. -/
 def C07_statement : Prop :=
   ∀ (c : Call) (s : Stmt), inline c = .ok s → Legal c →
     ∃ fr, FreshFrame c fr ∧
       ∀ σ : Store, ∀ x ∈ visible c, ∀ i j, (exec s σ) (x, i, j) = (execCall fr c σ) (x, i, j)
 
-/-- **Soundness (partial).**  For every accepted, well-formed call whose actual arguments'
-subscripts / section bounds / expression operands are not written by the inlined body, the
-inlined statements compute *exactly* the store of the by-reference call (callee locals placed
-where `merge` put them), from every store. -/
+/-- **Soundness (partial).**  For every accepted legal call whose actual arguments' subscripts /
+section bounds / expression operands are not written by the inlined body, the inlined statements
+compute *exactly* the store of the by-reference call (callee locals placed where the merge put
+them), from every store. -/
 theorem C07_inline_sound_partial (c : Call) (s : Stmt) (hin : inline c = .ok s)
-    (hwf : WellFormed c) (hst : IndexStable c) :
+    (hl : Legal c) (hst : IndexStable c) :
     ∀ σ : Store, exec s σ = execCall (renOf c) c σ := by
   intro σ
   obtain ⟨_, rfl⟩ := inline_ok hin
-  exact exec_subst_eq_execCall (renOf c) c hwf
+  exact exec_subst_eq_execCall (renOf c) c hl
     (by intro x hx; exact hst x (by rw [written_eq]; exact hx)) σ
 
 /-- a renamed local gets a name that occurs in neither table nor in any enclosing scope -/
-theorem C07_rename_fresh (c : Call) (l : Nat) (h : l ∈ c.localNames) : renOf c l ∉ allNames c := by
+theorem C07_rename_fresh (c : Call) (l : Nat) (h : l ∈ visible c) : renOf c l ∉ allNames c := by
   intro hmem
   have := le_maxList hmem
-  simp only [renOf, h, if_true] at this
+  have hv : l ∈ c.localNames ∨ l ∈ c.outerNames := by simpa [visible] using h
+  simp only [renOf, hv, if_true] at this
   omega
 
-/-- **No capture.**  If no callee local has the name of a variable of an enclosing scope,
-then after the merge the locals occupy names the caller cannot see, and distinct locals
-occupy distinct names. -/
-theorem C07_inline_no_capture (c : Call) (h : NoOuterClash c) : FreshFrame c (renOf c) := by
+/-- **No capture** (unconditional on the fixed code).  After the merge the callee's locals occupy
+names the caller cannot see, and distinct locals occupy distinct names. -/
+theorem C07_inline_no_capture (c : Call) : FreshFrame c (renOf c) := by
   have hall : ∀ l ∈ c.locals, l ≤ maxList (allNames c) := fun l hl =>
     le_maxList (by simp [allNames, hl])
   constructor
-  · intro l hl hvis
-    by_cases hloc : l ∈ c.localNames
+  · intro l _ hvis
+    by_cases hloc : l ∈ visible c
     · exact C07_rename_fresh c l hloc (by
         simp only [visible, List.mem_append] at hvis
         simp only [allNames, List.mem_append]
         rcases hvis with h1 | h1
         · exact Or.inl (Or.inl (Or.inl h1))
         · exact Or.inl (Or.inl (Or.inr h1)))
-    · simp only [renOf, hloc, if_false, visible, List.mem_append] at hvis
-      rcases hvis with h1 | h1
-      · exact h1.elim
-      · rcases h l hl with h2 | h2
-        · exact h2 h1
-        · exact hloc h2
+    · have hv : ¬ (l ∈ c.localNames ∨ l ∈ c.outerNames) := by simpa [visible] using hloc
+      simp only [renOf, hv, if_false] at hvis
+      exact hloc hvis
   · intro l hl l' hl' heq
     have h1 := hall l hl
     have h2 := hall l' hl'
@@ -147,19 +129,16 @@ theorem C07_farFrame_fresh (c : Call) : FreshFrame c (farFrame c) := by
     simp only [farFrame] at heq
     omega
 
-/-- **The property, under the three side conditions.** -/
+/-- **The property, under the side condition.** -/
 theorem C07_inline_visible_partial (c : Call) (s : Stmt) (hin : inline c = .ok s)
-    (hwf : WellFormed c) (hst : IndexStable c) (hno : NoOuterClash c) :
+    (hl : Legal c) (hst : IndexStable c) :
     ∃ fr, FreshFrame c fr ∧
       ∀ σ : Store, ∀ x ∈ visible c, ∀ i j, (exec s σ) (x, i, j) = (execCall fr c σ) (x, i, j) :=
-  ⟨renOf c, C07_inline_no_capture c hno, fun σ _ _ i j => by
-    rw [C07_inline_sound_partial c s hin hwf hst σ]⟩
-
-/-- `WellFormed` is `Legal` plus "no formal is a DO variable" -/
-theorem C07_wellFormed_legal (c : Call) (h : WellFormed c) : Legal c := okS_imp_okSL _ _ h
+  ⟨renOf c, C07_inline_no_capture c, fun σ _ _ i j => by
+    rw [C07_inline_sound_partial c s hin hl hst σ]⟩
 
 /-- scalar-variable actuals: nothing can be re-selected, so no stability condition is needed -/
-theorem C07_scalar_actuals_sound (c : Call) (s : Stmt) (hin : inline c = .ok s) (hwf : WellFormed c)
+theorem C07_scalar_actuals_sound (c : Call) (s : Stmt) (hin : inline c = .ok s) (hwf : Legal c)
     (hsc : ∀ a ∈ c.actuals, ∃ y, a = Actual.var y) : ∀ σ : Store, exec s σ = execCall (renOf c) c σ := by
   apply C07_inline_sound_partial c s hin hwf
   have : ∀ as : List Actual, (∀ a ∈ as, ∃ y, a = Actual.var y) → keyVars as = [] := by
@@ -176,7 +155,7 @@ theorem C07_scalar_actuals_sound (c : Call) (s : Stmt) (hin : inline c = .ok s) 
 
 /-- expression (and literal) actuals: sound as soon as the inlined body writes no variable
 the expressions read -/
-theorem C07_expr_actuals_sound (c : Call) (s : Stmt) (hin : inline c = .ok s) (hwf : WellFormed c)
+theorem C07_expr_actuals_sound (c : Call) (s : Stmt) (hin : inline c = .ok s) (hwf : Legal c)
     (hsc : ∀ a ∈ c.actuals, (∃ y, a = Actual.var y) ∨ ∃ e, a = Actual.expr e ∧ ∀ v ∈ exprVars e, v ∉ written s) :
     ∀ σ : Store, exec s σ = execCall (renOf c) c σ := by
   apply C07_inline_sound_partial c s hin hwf
@@ -201,7 +180,7 @@ theorem C07_expr_actuals_sound (c : Call) (s : Stmt) (hin : inline c = .ok s) (h
 /-- **Whole programs.**  Replacing every call of a caller program by its inlined body
 preserves the program's store transformer, when every call site meets the side conditions. -/
 theorem C07_inline_program_sound (p : CStmt)
-    (h : ∀ c ∈ calls p, WellFormed c ∧ IndexStable c) :
+    (h : ∀ c ∈ calls p, Legal c ∧ IndexStable c) :
     ∀ σ : Store, exec (inlineAll p) σ = execC renOf p σ := by
   induction p with
   | base s => intro σ; rfl
@@ -210,6 +189,14 @@ theorem C07_inline_program_sound (p : CStmt)
     obtain ⟨hwf, hst⟩ := h c (by simp [calls])
     exact exec_subst_eq_execCall (renOf c) c hwf
       (by intro x hx; exact hst x (by rw [written_eq]; exact hx)) σ
+  | fcall c res st =>
+    intro σ
+    obtain ⟨hwf, hst⟩ := h c (by simp [calls])
+    simp only [inlineAll, exec, execC]
+    have := exec_subst_eq_execCall (renOf c) c hwf
+      (by intro x hx; exact hst x (by rw [written_eq]; exact hx)) σ
+    show exec _ (exec (substS (roleOf (renOf c) c) c.body) σ) = _
+    rw [this]
   | seq a b iha ihb =>
     intro σ
     simp only [inlineAll, exec, execC]
@@ -222,6 +209,19 @@ theorem C07_inline_program_sound (p : CStmt)
     intro σ
     have : exec (inlineAll b) = execC renOf b := funext (ih (fun c hc => h c (by simp [calls, hc])))
     simp only [inlineAll, exec, execC, this]
+
+/-- **Function references.**  `x = … f(args) …` becomes `<inlined body of f>; x = … inlined_f …`:
+the result is the store of running the function (with its side effects) and then the
+assignment with the value the result variable holds on return. -/
+theorem C07_function_call_sound (c : Call) (res : Nat) (st : Stmt) (hl : Legal c) (hst : IndexStable c) :
+    ∀ σ : Store, exec (.seq (apply c) (useAt res (renOf c res) st)) σ
+      = exec (useAt res (renOf c res) st) (execCall (renOf c) c σ) :=
+  fun σ => C07_inline_program_sound (.fcall c res st) (by intro c' hc'; simp [calls] at hc'; subst hc'; exact ⟨hl, hst⟩) σ
+
+/-- the result variable of an inlined function (a callee local named like the function, which the
+caller sees) is renamed to a name that occurs nowhere -/
+theorem C07_function_result_fresh (c : Call) (res : Nat) (hvis : res ∈ visible c) :
+    renOf c res ∉ allNames c := C07_rename_fresh c res hvis
 
 /-! ### what an accepted call looks like (the refusals of `validate`) -/
 
@@ -239,7 +239,8 @@ theorem C07_validate_no_early_return (c : Call) (h : validate c = .ok ()) :
 
 theorem C07_validate_ok (c : Call) (h : validate c = .ok ()) :
     c.params.length = c.actuals.length ∧ checkArgs c.params c.actuals = none ∧
-    (∀ x ∈ stmtVars c.body, x ∈ paramNames c ++ c.locals) ∧ (∀ l ∈ c.locals, l ∉ c.statics) := by
+    (∀ x ∈ stmtVars c.body, x ∈ paramNames c ++ c.locals) ∧ (∀ l ∈ c.locals, l ∉ c.statics) ∧
+    (∀ v ∈ loopVars c.body, badLoopVar c v = false) := by
   unfold validate at h
   split at h
   · cases h
@@ -254,20 +255,35 @@ theorem C07_validate_ok (c : Call) (h : validate c = .ok ()) :
       · rename_i h3
         split at h
         · cases h
-        · rename_i h4
-          refine ⟨by simpa using h3, h4, ?_, ?_⟩
-          · intro x hx
-            simp only [List.any_eq_true, not_exists, not_and, Bool.not_eq_true] at h2
-            have := h2 x hx
-            simp at this
-            simp only [List.mem_append]
-            by_cases hp : x ∈ paramNames c
-            · exact Or.inl hp
-            · exact Or.inr (this hp)
-          · intro l hl hs
-            simp only [List.any_eq_true, not_exists, not_and, Bool.not_eq_true] at h1
-            have := h1 l hl
-            simp [hs] at this
+        · rename_i h5
+          split at h
+          · cases h
+          · rename_i h4
+            refine ⟨by simpa using h3, h4, ?_, ?_, ?_⟩
+            · intro x hx
+              simp only [List.any_eq_true, not_exists, not_and, Bool.not_eq_true] at h2
+              have := h2 x hx
+              simp at this
+              simp only [List.mem_append]
+              by_cases hp : x ∈ paramNames c
+              · exact Or.inl hp
+              · exact Or.inr (this hp)
+            · intro l hl hs
+              simp only [List.any_eq_true, not_exists, not_and, Bool.not_eq_true] at h1
+              have := h1 l hl
+              simp [hs] at this
+            · intro v hv
+              simp only [List.any_eq_true, not_exists, not_and, Bool.not_eq_true] at h5
+              exact h5 v hv
+
+/-- every name in an accepted body is a formal (with its actual) or a local of the routine -/
+theorem C07_validate_closed (c : Call) (h : validate c = .ok ()) :
+    ∀ x ∈ stmtVars c.body, (findFormal c.params c.actuals x).isSome = true ∨ x ∈ c.locals := by
+  obtain ⟨hlen, _, hcl, _, _⟩ := C07_validate_ok c h
+  intro x hx
+  rcases List.mem_append.mp (hcl x hx) with hp | hl
+  · exact Or.inl (findFormal_isSome (by omega) hp)
+  · exact Or.inr hl
 
 /-- an accepted array formal receives an array (section) of the same rank with unit strides;
 an expression is never passed to an array formal -/
@@ -291,7 +307,80 @@ theorem C07_validate_array_args (p : Param) (a : Actual) (hp : p.rank ≠ 0) (h 
         exact hp hr
       · cases h
 
-/-! ### witnesses: the pinned code violates the full statement -/
+/-! ### the callee frame is irrelevant; the inlined body does not clobber -/
+
+/-- **Frame independence.**  The result of an accepted, well-scoped CALL on the caller-visible
+locations does not depend on where the callee's locals are stored, as long as the storage is
+fresh for the caller — given the same (arbitrary) initial contents of the locals. -/
+theorem C07_frame_independent (c : Call) (hv : validate c = .ok ()) (hsc : WellScoped c)
+    (fr₁ fr₂ : Nat → Nat) (h₁ : FreshFrame c fr₁) (h₂ : FreshFrame c fr₂) (σ₁ σ₂ : Store)
+    (hvis : ∀ x ∈ visible c, ∀ i j, σ₁ (x, i, j) = σ₂ (x, i, j))
+    (hjunk : ∀ l ∈ c.locals, ∀ i j, σ₁ (fr₁ l, i, j) = σ₂ (fr₂ l, i, j)) :
+    ∀ x ∈ visible c, ∀ i j, (execCall fr₁ c σ₁) (x, i, j) = (execCall fr₂ c σ₂) (x, i, j) := by
+  have hf : FrameOK (fun x => x ∈ visible c) c.locals fr₁ fr₂ := ⟨h₁.1, h₂.1, h₁.2, h₂.2⟩
+  have hs : StoreRel (fun x => x ∈ visible c) c.locals fr₁ fr₂ σ₁ σ₂ := ⟨hvis, hjunk⟩
+  have hclosed := C07_validate_closed c hv
+  have hb : ∀ x ∈ stmtVars c.body, BindRel (fun x => x ∈ visible c) c.locals fr₁ fr₂
+      (envOf fr₁ c σ₁ x) (envOf fr₂ c σ₂ x) := by
+    intro x hx
+    simp only [envOf, roleOf]
+    cases hff : findFormal c.params c.actuals x with
+    | some pa =>
+      obtain ⟨p, a⟩ := pa
+      simp only [bindRole]
+      exact bindActual_rel p a (hsc a (findFormal_mem hff).1) hvis
+    | none =>
+      rcases hclosed x hx with h | h
+      · rw [hff] at h; cases h
+      · simp only [h, if_true, bindRole]
+        exact .frame x h
+  have := execE_rel hf c.body hs hb
+  exact fun x hx i j => this.vis x hx i j
+
+/-- **Soundness for any fresh frame**: the inlined statements agree, on everything the caller can
+see, with the CALL executed with its locals in *any* storage fresh for the caller. -/
+theorem C07_inline_sound_any_frame (c : Call) (s : Stmt) (hin : inline c = .ok s) (hl : Legal c)
+    (hst : IndexStable c) (hsc : WellScoped c) (fr : Nat → Nat) (hfr : FreshFrame c fr) (σ τ : Store)
+    (hvis : ∀ x ∈ visible c, ∀ i j, σ (x, i, j) = τ (x, i, j))
+    (hjunk : ∀ l ∈ c.locals, ∀ i j, σ (renOf c l, i, j) = τ (fr l, i, j)) :
+    ∀ x ∈ visible c, ∀ i j, (exec s σ) (x, i, j) = (execCall fr c τ) (x, i, j) := by
+  intro x hx i j
+  rw [C07_inline_sound_partial c s hin hl hst σ]
+  exact C07_frame_independent c (inline_ok hin).1 hsc (renOf c) fr (C07_inline_no_capture c) hfr σ τ
+    hvis hjunk x hx i j
+
+/-- **No clobber.**  Every variable the inlined body writes is either a merged local (under its
+new name) or the caller variable that an actual argument gives access to, for a formal the
+callee body itself writes — i.e. a variable the CALL writes too. -/
+theorem C07_inline_no_clobber (c : Call) (hv : validate c = .ok ()) (hl : Legal c) :
+    ∀ x ∈ written (apply c), (∃ l ∈ c.locals, x = renOf c l) ∨
+      ∃ y ∈ written c.body, ∃ p a, findFormal c.params c.actuals y = some (p, a) ∧ actualBase a = some x := by
+  intro x hx
+  rw [written_eq] at hx
+  obtain ⟨y, hy, hxy, hne⟩ := wvars_substS _ _ hl x hx
+  have hcl := C07_validate_closed c hv y (wvars_subset_stmtVars _ y hy)
+  unfold roleOf at hxy hne
+  cases hff : findFormal c.params c.actuals y with
+  | some pa =>
+    obtain ⟨p, a⟩ := pa
+    rw [hff] at hxy hne
+    refine Or.inr ⟨y, by rw [written_eq]; exact hy, p, a, hff, ?_⟩
+    cases a <;> simp_all [actualBase, NotExprRole, target]
+  | none =>
+    rw [hff] at hxy hne hcl
+    have hloc : y ∈ c.locals := by simpa using hcl
+    simp only [hloc, if_true, target] at hxy
+    exact Or.inl ⟨y, hloc, hxy⟩
+
+/-- a caller-visible variable written by the inlined body is reachable through an actual argument -/
+theorem C07_inline_no_clobber_visible (c : Call) (hv : validate c = .ok ()) (hl : Legal c) :
+    ∀ x ∈ written (apply c), x ∈ visible c → ∃ a ∈ c.actuals, actualBase a = some x := by
+  intro x hx hvis
+  rcases C07_inline_no_clobber c hv hl x hx with ⟨l, hl', rfl⟩ | ⟨y, _, p, a, hff, hb⟩
+  · exact absurd hvis ((C07_inline_no_capture c).1 l hl')
+  · exact ⟨a, (findFormal_mem hff).1, hb⟩
+
+/-! ### witnesses: the code violates the full statement -/
 
 /-- `call s(a(i), i)` with `s(x,k): k = k + 1; x = 100`  (names: a=0 i=1 x=2 k=3) -/
 def cexIdx : Call :=
@@ -301,7 +390,7 @@ def cexIdx : Call :=
 
 example : inline cexIdx = .ok (.seq (.assign 1 (.bin .add (.var 1) (.lit 1))) (.store1 0 (.var 1) (.lit 100))) := by
   decide
-example : Legal cexIdx ∧ WellFormed cexIdx ∧ ¬ IndexStable cexIdx := by decide
+example : Legal cexIdx ∧ WellScoped cexIdx ∧ ¬ IndexStable cexIdx := by decide
 
 /-- With `i = 2`: the call stores 100 into `a(2)`, the inlined code into `a(3)`. -/
 theorem C07_inline_index_modified_counterexample : ¬ C07_statement := by
@@ -325,6 +414,8 @@ theorem C07_expr_actual_counterexample : ¬ C07_statement := by
   rw [execCall_no_locals rfl] at this
   exact absurd this (by decide)
 
+/-! ### the two repaired defects: the fixed model is right on the former witnesses -/
+
 /-- `call s(i, n)` with `s(k,m): do k = 1, 3; m = m + k; enddo`, the caller also has a variable
 named `k`  (names: i=1 n=4 k=3 m=5) -/
 def cexLoop : Call :=
@@ -332,16 +423,12 @@ def cexLoop : Call :=
     body := .loop 3 (.lit 1) (.lit 3) (.lit 1) (.assign 5 (.bin .add (.var 5) (.var 3))),
     actuals := [.var 1, .var 4] }
 
-example : Legal cexLoop ∧ ¬ WellFormed cexLoop := by decide
-
-/-- The loop still runs over the formal's name `k` (clobbering the caller's `k`) while the body
-reads `i`: with everything zero the call gives `n = 6`, the inlined code `n = 0`. -/
-theorem C07_loopvar_formal_counterexample : ¬ C07_statement := by
-  intro h
-  obtain ⟨fr, _, hs⟩ := h cexLoop (apply cexLoop) (by decide) (by decide)
-  have := hs (storeOf []) 4 (by decide) 0 0
-  rw [execCall_no_locals rfl] at this
-  exact absurd this (by decide)
+example : Legal cexLoop ∧ IndexStable cexLoop := by decide
+/-- the loop now runs over the actual `i` -/
+example : inline cexLoop = .ok (.loop 1 (.lit 1) (.lit 3) (.lit 1) (.assign 4 (.bin .add (.var 4) (.var 1)))) := by
+  decide
+/-- … and an element actual for a DO-variable formal is refused -/
+example : validate { cexLoop with actuals := [.elem1 0 (.var 1), .var 4] } = .error .loopVarActual := by decide
 
 /-- module variable `g`, caller `call s(i)`, callee `s(x)` has a local `g`: `g = 5; x = g`
 (names: g=0 i=1 x=2) -/
@@ -349,25 +436,34 @@ def cexCapture : Call :=
   { localNames := [1], outerNames := [0], params := [⟨2, 0, 1, 1⟩], locals := [0], statics := [],
     body := .seq (.assign 0 (.lit 5)) (.assign 2 (.var 0)), actuals := [.var 1] }
 
-example : WellFormed cexCapture ∧ IndexStable cexCapture ∧ ¬ NoOuterClash cexCapture := by decide
-example : apply cexCapture = .seq (.assign 0 (.lit 5)) (.assign 1 (.var 0)) := by decide
+/-- the local `g` is renamed (to 3): the module variable is no longer captured -/
+example : apply cexCapture = .seq (.assign 3 (.lit 5)) (.assign 1 (.var 3)) := by decide
+example : (exec (apply cexCapture) (storeOf [((0, 0, 0), 1)])) (0, 0, 0) = 1 := by decide
 
-/-- The merged local keeps the name `g` and the inlined code overwrites the module variable;
-no placement of the callee's local in storage the caller cannot see does that. -/
-theorem C07_outer_capture_counterexample : ¬ C07_statement := by
-  intro h
-  obtain ⟨fr, ⟨hfr, _⟩, hs⟩ := h cexCapture (apply cexCapture) (by decide) (by decide)
-  have hne : fr 0 ≠ 0 := by
-    intro h0
-    exact hfr 0 (by decide) (by rw [h0]; decide)
-  have := hs (storeOf []) 0 (by decide) 0 0
-  have hl : (exec (apply cexCapture) (storeOf [])) (0, 0, 0) = 5 := by decide
-  rw [hl] at this
-  have hr : (execCall fr cexCapture (storeOf [])) (0, 0, 0) = 0 := by
-    simp only [execCall, cexCapture, execE, evalE, wr, rd, envOf, roleOf, findFormal, bindRole, bindActual]
-    simp [Store.set_apply, storeOf, Ne.symm hne]
-  rw [hr] at this
-  exact absurd this (by decide)
+/-! ### a function reference -/
+
+/-- `t = t + f(n, a) * 2` with `f(x, v): q = x + 1; q = q + v(2); f = q * 2`, `a(0:10)`, `v(:)`
+(names: a=0 n=4 t=5 f=6 x=2 v=8 q=7; the function name `f` is visible in the enclosing scope) -/
+def exFun : Call :=
+  { localNames := [0, 4, 5], outerNames := [6], params := [⟨2, 0, 1, 1⟩, ⟨8, 1, 1, 1⟩], locals := [6, 7], statics := [],
+    body := .seq (.assign 7 (.bin .add (.var 2) (.lit 1)))
+      (.seq (.assign 7 (.bin .add (.var 7) (.idx1 8 (.lit 2)))) (.assign 6 (.bin .mul (.var 7) (.lit 2)))),
+    actuals := [.var 4, .sec1 0 (.lit 0) true] }
+
+def exFunUse : Stmt := .assign 5 (.bin .add (.var 5) (.bin .mul (.var 6) (.lit 2)))
+
+example : validate exFun = .ok () ∧ Legal exFun ∧ IndexStable exFun ∧ WellScoped exFun := by decide
+/-- the result variable `f` is renamed (to 15) and replaces the call -/
+example : inlineAll (.fcall exFun 6 exFunUse) =
+    .seq (.seq (.assign 7 (.bin .add (.var 4) (.lit 1)))
+        (.seq (.assign 7 (.bin .add (.var 7) (.idx1 0 (.bin .add (.bin .sub (.lit 2) (.lit 1)) (.lit 0)))))
+          (.assign 15 (.bin .mul (.var 7) (.lit 2)))))
+      (.assign 5 (.bin .add (.var 5) (.bin .mul (.var 15) (.lit 2)))) := by decide
+/-- n = 3, a(1) = 10, t = 1  ⇒  f = (3 + 1 + 10) * 2 = 28, t = 1 + 28 * 2 = 57 -/
+example : (execC farFrame (.fcall exFun 6 exFunUse) (storeOf [((4, 0, 0), 3), ((0, 1, 0), 10), ((5, 0, 0), 1)])) (5, 0, 0) = 57 := by
+  decide
+example : (exec (inlineAll (.fcall exFun 6 exFunUse)) (storeOf [((4, 0, 0), 3), ((0, 1, 0), 10), ((5, 0, 0), 1)])) (5, 0, 0) = 57 := by
+  decide
 
 /-! ### non-vacuity: the hypotheses are satisfiable on a non-trivial call -/
 
@@ -383,7 +479,7 @@ def exOK : Call :=
     actuals := [.elem1 0 (.var 1), .var 4, .sec1 0 (.lit 0) true, .sec2 6 (.lit 0) (.lit 2) true] }
 
 example : validate exOK = .ok () := by decide
-example : WellFormed exOK ∧ IndexStable exOK ∧ NoOuterClash exOK := by decide
+example : Legal exOK ∧ IndexStable exOK ∧ WellScoped exOK := by decide
 /-- the clashing local `i` is renamed (to 12), `t` keeps its name, indices are shifted -/
 example : apply exOK =
     .seq (.loop 12 (.lit 1) (.lit 3) (.lit 1)
@@ -391,7 +487,7 @@ example : apply exOK =
       (.seq (.assign 7 (.idx2 6 (.bin .add (.bin .sub (.lit 2) (.lit 1)) (.lit 0))
           (.bin .add (.bin .sub (.var 4) (.lit 1)) (.lit 2))))
         (.store1 0 (.var 1) (.bin .add (.idx1 0 (.var 1)) (.var 7)))) := by decide
-example : FreshFrame exOK (renOf exOK) := C07_inline_no_capture exOK (by decide)
+example : FreshFrame exOK (renOf exOK) := C07_inline_no_capture exOK
 /-- refusals -/
 example : validate { exOK with actuals := [.elem1 0 (.var 1), .var 4, .sec1 0 (.lit 0) true] } = .error .nargs := by decide
 example : validate { exOK with actuals := [.elem1 0 (.var 1), .var 4, .sec1 0 (.lit 0) false, .sec2 6 (.lit 0) (.lit 2) true] }
